@@ -17,7 +17,8 @@ RULE = ("cases (TLE, observer, start, length, horizon): TLEs = the near-earth el
         "a found pass minus 0.002-0.3 deg when that lies in 0-60 deg (passes of some 30-200 s); 40 % of the observers are put on the ground track at a "
         "random instant of the window (offset 0-0.3 deg: passes culminating above 85 deg), the others are uniform on the "
         "sphere, altitude 0-3 km; derived cases start the window inside a pass or end it inside / up to 90 s after one; a "
-        "case is kept only if the propagated altitude stays within 80-30000 km at every whole minute of the window; an "
+        "case is kept only if, at every whole minute of the window, the propagated altitude stays within 80-30000 km and the "
+        "geocentric distance within 150 km of the element set's own perigee-apogee range; an "
         "exception of get_next_passes on a kept case is a violation, not a refusal. Correspondence: the real "
         "get_next_passes with _get_root, _get_max_parab, _get_min_bounded and the per-minute elevation samples observed by "
         "wrapping module / instance attributes (middle, int_start, int_end read from the caller's frame); the Lean model gets "
@@ -30,8 +31,10 @@ RULE = ("cases (TLE, observer, start, length, horizon): TLEs = the near-earth el
         "and fall within 1 s of its ends; 'in between' is judged at the whole seconds at least 1 ms inside (rise, fall). "
         "distinct = (tle, observer, start, length, horizon); non-trivial = at least one pass reported or one above-horizon "
         "interval in the truth")
-ASSUMPTIONS = ["cases whose propagated altitude leaves 80-30 000 km at a whole minute of the window are skipped (element sets "
-               "propagated beyond their decay give million-km positions that pyorbital does not refuse; refusals are C13)",
+ASSUMPTIONS = ["cases whose propagated altitude leaves 80-30 000 km, or whose geocentric distance leaves the element set's own "
+               "perigee-apogee range by more than 150 km, at a whole minute of the window are skipped (element sets with extreme "
+               "drag terms propagated days from their epoch give orbits of another size, or million-km positions, that "
+               "pyorbital does not refuse; refusals are C13)",
                "the elevation is what Orbital.get_observer_look returns (its correctness is C05's subject)",
                "brentq / the maximiser meeting their contracts to 1e-4 deg / 0.01 deg in binary64 is measured by the oracle on "
                "the sampled cases, not proved",
@@ -100,20 +103,32 @@ def secs_of(t0, t):
 
 
 ALT_RANGE_KM = (80.0, 30000.0)
+RADIUS_MARGIN_KM = 150.0
 
 
 def in_domain(case):
-    """The element set is still a near-earth orbit throughout the window: propagated altitude within 80-30 000 km at every
-    whole minute (element sets propagated beyond their decay return million-km positions without being refused)."""
+    """The element set still describes its own orbit throughout the window: at every whole minute the propagated altitude
+    is within 80-30 000 km and the geocentric distance within 150 km of the element set's perigee-apogee range
+    (a(1-e) .. a(1+e), a from the mean motion). Element sets with extreme drag terms propagated days away from their
+    epoch (before or after) return orbits of a different size - or million-km positions - without being refused."""
     o = _orb(case)
     t0 = _start(case)
     n = int(case["length"]) * 60 + 1
     times = np.datetime64(t0, "us") + (np.arange(n) * 60 * 10 ** 6).astype("timedelta64[us]")
     try:
         alt = np.asarray(o.get_lonlatalt(times)[2], dtype=float)
+        pos, _ = o.get_position(times, normalize=False)
+        r = np.sqrt(np.sum(np.asarray(pos, dtype=float) ** 2, axis=0))
     except Exception:  # noqa
         return False
-    return bool(np.all(np.isfinite(alt)) and alt.min() >= ALT_RANGE_KM[0] and alt.max() <= ALT_RANGE_KM[1])
+    nrad = float(o.tle.mean_motion) * 2 * math.pi / 86400.0
+    if not nrad > 0:
+        return False
+    a = (398600.8 / nrad ** 2) ** (1.0 / 3)
+    e = float(o.tle.excentricity)
+    ok_r = r.min() >= a * (1 - e) - RADIUS_MARGIN_KM and r.max() <= a * (1 + e) + RADIUS_MARGIN_KM
+    return bool(np.all(np.isfinite(alt)) and np.all(np.isfinite(r)) and alt.min() >= ALT_RANGE_KM[0]
+                and alt.max() <= ALT_RANGE_KM[1] and ok_r)
 
 
 # ------------------------------------------------------------------------------------------------ recording
